@@ -1,5 +1,6 @@
 import Shentu.Model.Shield
 import Shentu.Gen.Shield
+import Shentu.Gen.Wiring
 /-
   The regenerated tie of the shield model: every guard and amount below is translated from the current Go source on every
   run (Shentu/Gen/Shield.lean); each theorem states that the translated expression is the one the model (and the C02–C07
@@ -8,6 +9,14 @@ import Shentu.Gen.Shield
 -/
 namespace Shentu.Props.ShieldTie
 open Shentu Shentu.Shield
+
+/-- tie (regenerated on every run): every module account is a blocked recipient of the bank — `ModuleAccountAddrs` marks all of
+    `maccPerms`, without exceptions.  The modules' exact books (C02, C11, the staking pools of C09) rely on it; the VM honours the
+    same list since b6f072c. -/
+theorem tie_module_accounts_blocked : Gen.Wiring.moduleAccountAddrs_found = true ∧ Gen.Wiring.moduleAccountAddrsBody =
+    ["modAccAddrs := make(map[string]bool)",
+     "for acc := range maccPerms { modAccAddrs[authtypes.NewModuleAddress(acc).String()] = true }",
+     "return modAccAddrs"] := by decide
 
 theorem all_sites_found : Gen.Shield.allFound = true := by decide
 
